@@ -1,0 +1,135 @@
+//go:build verif
+
+package search
+
+// Verification hooks for property C20 (search scheduler). Not part of the normal build.
+//
+// The hooks construct the real multiScheduler (through newMultiScheduler, so the capacity arithmetic is the
+// real one), call the real Acquire / Yield / Release, force the interactive time slice to be "used up" by putting
+// the real deadlineTimer into the state it has after it fired, and observe the two semaphores from outside
+// (their counters are read under their own mutex; nothing is written).
+
+import (
+	"context"
+	"fmt"
+	"reflect"
+	"sync"
+	"time"
+	"unsafe"
+
+	"golang.org/x/sync/semaphore"
+)
+
+// VerifSched wraps a real multiScheduler.
+type VerifSched struct {
+	s *multiScheduler
+}
+
+var verifSchedMu sync.Mutex
+
+// VerifNewMultiScheduler builds a scheduler with newMultiScheduler(capacity) under ZOEKTSCHED batchdiv=<batchdiv>
+// (0 = unset, i.e. the default of 4) and sets the interactive time slice.
+func VerifNewMultiScheduler(capacity int64, batchdiv int, interactive time.Duration) *VerifSched {
+	verifSchedMu.Lock()
+	defer verifSchedMu.Unlock()
+	old, had := zoektSched["batchdiv"]
+	if batchdiv == 0 {
+		delete(zoektSched, "batchdiv")
+	} else {
+		zoektSched["batchdiv"] = batchdiv
+	}
+	s := newMultiScheduler(capacity)
+	if had {
+		zoektSched["batchdiv"] = old
+	} else {
+		delete(zoektSched, "batchdiv")
+	}
+	s.interactiveDuration = interactive
+	return &VerifSched{s: s}
+}
+
+// VerifSemaSnap is the state of the two semaphores, read under their mutexes.
+type VerifSemaSnap struct {
+	SizeI, CurI int64
+	WaitI       int
+	SizeB, CurB int64
+	WaitB       int
+}
+
+func verifPeekWeighted(w *semaphore.Weighted) (size, cur int64, waiters int) {
+	v := reflect.ValueOf(w).Elem()
+	fmu, fsize, fcur, fw := v.FieldByName("mu"), v.FieldByName("size"), v.FieldByName("cur"), v.FieldByName("waiters")
+	if !fmu.IsValid() || !fsize.IsValid() || !fcur.IsValid() || !fw.IsValid() ||
+		fmu.Type() != reflect.TypeOf(sync.Mutex{}) || fsize.Kind() != reflect.Int64 || fcur.Kind() != reflect.Int64 {
+		panic("verif: semaphore.Weighted changed shape (want fields size, cur int64; mu sync.Mutex; waiters list.List)")
+	}
+	flen := fw.FieldByName("len")
+	if !flen.IsValid() || flen.Kind() != reflect.Int {
+		panic("verif: container/list.List changed shape (want field len int)")
+	}
+	mu := (*sync.Mutex)(unsafe.Pointer(fmu.UnsafeAddr()))
+	mu.Lock()
+	defer mu.Unlock()
+	return fsize.Int(), fcur.Int(), int(flen.Int())
+}
+
+// Snapshot reads both semaphores (each under its own mutex; interactive first).
+func (v *VerifSched) Snapshot() VerifSemaSnap {
+	var r VerifSemaSnap
+	r.SizeI, r.CurI, r.WaitI = verifPeekWeighted(v.s.semInteractive.sem)
+	r.SizeB, r.CurB, r.WaitB = verifPeekWeighted(v.s.semBatch.sem)
+	return r
+}
+
+// InteractiveDuration returns the configured time slice.
+func (v *VerifSched) InteractiveDuration() time.Duration { return v.s.interactiveDuration }
+
+// VerifProc wraps a real process.
+type VerifProc struct {
+	p *process
+}
+
+// Acquire calls the real multiScheduler.Acquire.
+func (v *VerifSched) Acquire(ctx context.Context) (*VerifProc, error) {
+	p, err := v.s.Acquire(ctx)
+	if err != nil {
+		if p != nil {
+			panic("verif: Acquire returned both a process and an error")
+		}
+		return nil, err
+	}
+	if p == nil {
+		panic("verif: Acquire returned neither a process nor an error")
+	}
+	return &VerifProc{p: p}, nil
+}
+
+// Yield calls the real process.Yield.
+func (p *VerifProc) Yield(ctx context.Context) error { return p.p.Yield(ctx) }
+
+// Release calls the real process.Release.
+func (p *VerifProc) Release() { p.p.Release() }
+
+// Expire puts the process's deadlineTimer into the state it is in after its deadline fired and Exceeded
+// observed it (deadlineTimer.Stop: t = nil), so that the next Yield sees the time slice as used up.
+// No-op once the process has yielded successfully (yieldTimer == nil).
+func (p *VerifProc) Expire() {
+	if p.p.yieldTimer != nil {
+		p.p.yieldTimer.Stop()
+	}
+}
+
+// Yielded reports whether the process has moved to the batch queue (yieldTimer == nil).
+func (p *VerifProc) Yielded() bool { return p.p.yieldTimer == nil }
+
+// VerifParseTuneables exposes parseTuneables.
+func VerifParseTuneables(v string) map[string]int { return parseTuneables(v) }
+
+// VerifSchedOf returns the scheduler of a searcher built by VerifNewShardedSearcher.
+func (v *VerifSharded) Sched() *VerifSched {
+	ms, ok := v.ss.sched.(*multiScheduler)
+	if !ok {
+		panic(fmt.Sprintf("verif: scheduler is %T, want *multiScheduler", v.ss.sched))
+	}
+	return &VerifSched{s: ms}
+}
